@@ -9,6 +9,12 @@ R-PURITY   every in-place operation (subscript store/delete, augmented assignmen
            not an attribute of it, not a basic slice / asarray / reshape of it, and not a field of an
            object that was constructed from it by a class that stores its arguments un-copied
            (TimeSeries is a frozen dataclass without copying: derived from its class body).
+           One obligation per (public entry point, caller-owned parameter); what is checked for it is every in-place
+           operation the entry point reaches: its body, closures (analysed with the values they capture), generators
+           (a generator function returns a fresh iterable whose elements alias what it yields), comprehensions (loops),
+           private helpers (judged at their call sites with the actual arguments; tuples they return are tracked per
+           position).  The number of obligations depends on the interface of the modules only, not on how the bodies
+           are split into helpers, loops or comprehensions; the number of sites inspected is reported under `analysed`.
 R-NEWOBJ   the modifiers (functions of signal_modifier.py and instance methods of TimeSeries that are
            annotated to return a TimeSeries) return a newly constructed object on every path, never the
            object passed in.
@@ -17,7 +23,8 @@ R-FALSY-NUMERIC  no *truthiness* use (`x or y`, `x and y`, `if x`, `if not x`, `
            numeric or Optional[numeric].  Types come from annotations only (parameters, annotated locals, class
            fields, return annotations of functions of the three modules) propagated through simple assignment,
            `.get(k)` / subscripts / iteration / `.items()` / `.values()` of annotated containers and tuple unpacking:
-           such values are settings the caller supplies (delay, gain, bias, weight, time) for which zero is legal
+           One obligation per (public entry point, numeric setting among its parameters); the sites are looked for in
+           every function, closure and lambda of the three modules.  Such values are settings the caller supplies (delay, gain, bias, weight, time) for which zero is legal
            and must not be read as "absent" (a 0.0 per-sensor delay override silently becoming the default breaks
            "grouped per-sensor delays give exactly the column-by-column result").  Truthiness of containers,
            strings, bools, non-numeric optionals, explicit `.size`/`len()` tests and values of unknown type are
@@ -46,14 +53,19 @@ EXEMPT_RECEIVERS = {
                        "it holds no series data",
 }
 
-# hand-confirmed on the pinned tree (see the enumeration in the final report of the checker's author)
-FLOOR_FUNCTIONS = 52      # 13 signal_modifier + 12 SignalTransform + 7 module-level timeseries + 20 TimeSeries
-FLOOR_SITES = 49          # classified in-place sites (subscript stores, augmented assignments, in-place methods, self.x=)
+# Floors are expressed over the *interface* of the three modules, not over the layout of the bodies: an obligation is a
+# (public entry point, caller-owned parameter) pair for R-PURITY and a (public entry point, numeric setting) pair for
+# R-FALSY-NUMERIC.  What is checked for each obligation is every in-place operation / truthiness test the entry point
+# can reach (its body, closures, generators, private helpers with the actual arguments substituted).  Merging copies of
+# a loop into a helper, turning an accumulator loop into a comprehension or splitting a function therefore changes the
+# number of *sites* inspected (reported under `analysed`), never the number of obligations; a vanished entry point or
+# parameter does.  Hand-confirmed on the pinned tree (enumeration: `python3-vt -m sa.props.c48`):
+FLOOR_ENTRY_POINTS = 39   # 10 signal_modifier + 7 SignalTransform (public) + 2 module-level timeseries + 20 TimeSeries
+FLOOR_OWNED = 73          # caller-owned (non-scalar) parameters of those (80), without the 7 exempt SignalTransform receivers
 FLOOR_NEWOBJ = 8          # apply_bias/gain/delay/time_window/delayed_ts_window/resample_and_delay, resample, remove_from_beginning
+FLOOR_SETTINGS = 11       # parameters annotated numeric / Optional[numeric] / container of numerics, per entry point
 ANCHORS = {"apply_bias", "apply_gain", "apply_delay", "apply_time_window", "apply_resample_and_delay",
            "TimeSeries.resample", "TimeSeries.interpolate", "SignalTransform.apply"}
-
-FLOOR_TRUTH = 31          # truthiness sites (leaf operands in a boolean context that are not comparisons), hand-counted
 
 SERIES_CLASS = "TimeSeries"
 
@@ -132,9 +144,15 @@ def union_type(ts):
 class Typer:
     """flow-insensitive, annotation-derived types of the names of one function"""
 
-    def __init__(self, prog, f):
+    def __init__(self, prog, f, outer=None):
         self.prog, self.f = prog, f
-        self.env = {}
+        self.env = dict(outer or {})             # closures: free variables keep the types of the enclosing scope
+        if outer:
+            for p in list(f.params) + list(f.kwonly) + [x for x in (f.vararg, f.kwarg) if x]:
+                self.env.pop(p, None)
+            for n in own_nodes(f.node):          # names the closure binds itself are its own locals
+                if isinstance(n, ast.Name) and isinstance(n.ctx, ast.Store):
+                    self.env.pop(n.id, None)
         for p, a in f.ann.items():
             t = ann_type(a)
             if t is not None:
@@ -305,7 +323,8 @@ def own_nodes(fn):
     out = []
 
     def rec(n, top):
-        if isinstance(n, (ast.FunctionDef, ast.AsyncFunctionDef, ast.Lambda, ast.ClassDef)) and not top:
+        if isinstance(n, (ast.FunctionDef, ast.AsyncFunctionDef, ast.ClassDef)) and not top:
+            out.append(n)                        # the definition itself (nested_scopes looks for it), not its body
             return
         out.append(n)
         for c in ast.iter_child_nodes(n):
@@ -362,31 +381,75 @@ def truth_sites(fn):
     return out
 
 
+def has_numeric(t) -> bool:
+    if t == NUM:
+        return True
+    if isinstance(t, tuple):
+        if t[0] in ("map", "seq"):
+            return has_numeric(t[1])
+        if t[0] == "tuple":
+            return any(has_numeric(x) for x in t[1])
+    return False
+
+
+def nested_scopes(prog, f, ty):
+    """(FuncInfo, Typer) of the closures defined in f, recursively; free variables have the types of the enclosing scope"""
+    out = []
+    for n in own_nodes(f.node):
+        if isinstance(n, (ast.FunctionDef, ast.AsyncFunctionDef)) and n is not f.node:
+            nf = pyalias.FuncInfo(f.mod, n, None)
+            nf.qual = f.qual + "." + n.name
+            nty = Typer(prog, nf, outer=ty.env)
+            out.append((nf, nty))
+            out.extend(nested_scopes(prog, nf, nty))
+    return out
+
+
 def falsy_numeric(res, prog, results):
-    res.rule("R-FALSY-NUMERIC", "no truthiness test of a value whose annotation-derived type is numeric / Optional[numeric] "
-             "(zero is a legal delay/gain/bias/weight/time and must not be read as absent)", floor=FLOOR_TRUTH)
-    unknown = 0
+    res.rule("R-FALSY-NUMERIC", "no entry point reaches a truthiness test of a value whose annotation-derived type is "
+             "numeric / Optional[numeric] (zero is a legal delay/gain/bias/weight/time and must not be read as absent); "
+             "one obligation per (entry point, numeric setting)", floor=FLOOR_SETTINGS)
+    unknown = total = 0
+    bad_in = {}                                  # function qual (closures: the enclosing function) -> bad sites
     for f, _ in results:
         ty = Typer(prog, f)
-        per_func = {}
-        for e, form, mode in truth_sites(f.node):
-            t = ty.typeof(e)
-            if mode == "elem":
-                t = ty.elem(t, e) if isinstance(t, tuple) else None
-            text = ast.unparse(e)
-            k = per_func.get((form, text), 0)
-            per_func[(form, text)] = k + 1
-            construct = f"{f.qual}:{form}:{text}" + (f"#{k + 1}" if k else "")
-            if t == NUM:
-                res.bad("R-FALSY-NUMERIC", construct, f.mod.rel, e.lineno,
-                        f"{f.qual}: truthiness of `{text}` ({form}) whose declared type is numeric/Optional[numeric]: "
-                        f"a legal value 0 / 0.0 is treated like a missing one")
-            else:
-                if t is None:
+        for g, gty in [(f, ty)] + nested_scopes(prog, f, ty):
+            per_func = {}
+            for e, form, mode in truth_sites(g.node):
+                total += 1
+                t = gty.typeof(e)
+                if mode == "elem":
+                    t = gty.elem(t, e) if isinstance(t, tuple) else None
+                text = ast.unparse(e)
+                k = per_func.get((form, text), 0)
+                per_func[(form, text)] = k + 1
+                construct = f"{g.qual}:{form}:{text}" + (f"#{k + 1}" if k else "")
+                if t == NUM:
+                    bad_in[f.qual] = bad_in.get(f.qual, 0) + 1
+                    res.bad("R-FALSY-NUMERIC", construct, f.mod.rel, e.lineno,
+                            f"{g.qual}: truthiness of `{text}` ({form}) whose declared type is numeric/Optional[numeric]: "
+                            f"a legal value 0 / 0.0 is treated like a missing one")
+                elif t is None:
                     unknown += 1
-                kind = "unknown (not decided)" if t is None else t[0] + " container" if isinstance(t, tuple) else t
-                res.ok("R-FALSY-NUMERIC", construct, {"file": f.mod.rel, "line": e.lineno, "type": kind})
+    res.count("truthiness_sites", total)
     res.count("truthiness_sites_unknown_type", unknown)
+    # obligations: the numeric settings of every entry point
+    for f, _ in results:
+        if not prog.is_entry_point(f):
+            continue
+        settings = [p for p, a in f.ann.items() if has_numeric(ann_type(a))]
+        if not settings:
+            continue
+        reached = prog.reach(f)
+        dirty = sorted(g.qual for g in reached if bad_in.get(g.qual))
+        for p in settings:
+            construct = f"{f.qual}:setting:{p}"
+            if dirty:
+                res.seen("R-FALSY-NUMERIC", construct)       # the sites are reported above
+            else:
+                res.ok("R-FALSY-NUMERIC", construct,
+                       {"file": f.mod.rel, "line": f.node.lineno, "annotation": ast.unparse(f.ann[p]),
+                        "functions_reached": len(reached)})
 
 
 def _returns_series(f) -> bool:
@@ -403,7 +466,154 @@ def _has_series_param(f) -> bool:
     return False
 
 
+# ------------------------------------------------------------------------------------------------
+# front-end self-probe: a fixed in-memory module that exercises every mutation kind and every aliasing construct the
+# rule relies on (views, copies, dataclass fields, generators, positional tuples, comprehensions, helpers, closures).
+# The expected classification is part of the checker: if a change to sa/pyalias.py makes the analysis blind to one of
+# them, every run is an ANALYSIS-ERROR -- independently of how the analysed modules happen to be laid out.
+
+PROBE_REL = "python/_c48_probe.py"
+PROBE_SRC = '''
+import numpy as np
+from dataclasses import dataclass
+
+
+@dataclass(frozen=True)
+class Box:
+  a: np.ndarray
+  b: np.ndarray
+
+
+def _pairs(xs, k):
+  for x in xs:
+    if k:
+      yield x, x[1:]
+
+
+def _dup(box):
+  return box.a, box.b.copy()
+
+
+def _zero(v):
+  v[:] = 0
+
+
+def aug_view(x: np.ndarray):
+  v = x[1:]
+  v *= 2.0
+
+
+def aug_copy(x: np.ndarray):
+  v = x.copy()
+  v += 1.0
+
+
+def field_store(b: Box):
+  n = Box(b.a, b.b.copy())
+  n.b[0] = 1.0
+  n.a[0] = 1.0
+
+
+def gen_elem(xs: list, k: int):
+  for head, tail in _pairs(xs, k):
+    tail[0] = 0
+
+
+def gen_container(xs: list, k: int):
+  out = list(_pairs(xs, k))
+  out.append(1)
+
+
+def tuple_pos(b: Box):
+  a, c = _dup(b)
+  c[0] = 1.0
+  a[0] = 1.0
+
+
+def comp_elem(xs: list):
+  ys = [x for x in xs]
+  ys.append(0)
+  for y in ys:
+    y.sort()
+
+
+def out_kw(x: np.ndarray, y: np.ndarray):
+  np.add(x, 1.0, out=y)
+
+
+def via_helper(x: np.ndarray):
+  _zero(x[2:])
+  _zero(x + 1.0)
+
+
+def closure(x: np.ndarray):
+  def inner():
+    x[0] = 1.0
+  inner()
+
+
+def closure_result(x: np.ndarray, k: int):
+  def columns():
+    for i in range(k):
+      yield x[:, i]
+
+  def scaled():
+    return x * 2.0
+  for c in columns():
+    c *= 2.0
+  scaled()[0] = 1.0
+
+
+def method_inplace(x: np.ndarray, y: np.ndarray):
+  x.copy().sort()
+  np.copyto(y, x)
+  y.fill(0.0)
+
+
+def returns_same(b: Box) -> Box:
+  return b
+
+
+def returns_new(b: Box) -> Box:
+  return Box(b.a, b.b)
+'''
+# function -> sorted list of (status, site kind) the analysis has to produce
+PROBE_EXPECT = {
+    "_pairs": [], "_dup": [],
+    "_zero": [("deferred", "subscript-store")],
+    "aug_view": [("view", "augmented-assignment")],
+    "aug_copy": [("fresh", "augmented-assignment")],
+    "field_store": [("fresh", "subscript-store"), ("view", "subscript-store")],
+    "gen_elem": [("view", "subscript-store")],
+    "gen_container": [("fresh", "inplace-method:append")],
+    "tuple_pos": [("fresh", "subscript-store"), ("view", "subscript-store")],
+    "comp_elem": [("fresh", "inplace-method:append"), ("view", "inplace-method:sort")],
+    "out_kw": [("view", "out-argument")],
+    "via_helper": [("fresh", "call->_zero(v):subscript-store"), ("view", "call->_zero(v):subscript-store")],
+    "closure": [("view", "subscript-store")],
+    "closure_result": [("fresh", "subscript-store"), ("view", "augmented-assignment")],
+    "method_inplace": [("fresh", "inplace-method:sort"), ("view", "inplace-method:fill"), ("view", "numpy-inplace:copyto")],
+    "returns_same": [], "returns_new": [],
+}
+PROBE_RETURNS_INPUT = {"returns_same": True, "returns_new": False}
+
+
+def self_probe():
+    prog = pyalias.Program([PROBE_REL], sources={PROBE_REL: PROBE_SRC})
+    got, rets = {}, {}
+    for f, s in prog.analyse_all():
+        got[f.qual] = sorted((x.status, x.kind) for x in s.sites)
+        rets[f.qual] = bool(s.ret is not None and s.ret.own)
+    diff = {k: (got.get(k), v) for k, v in PROBE_EXPECT.items() if got.get(k) != v}
+    diff.update({k: (rets.get(k), v) for k, v in PROBE_RETURNS_INPUT.items() if rets.get(k) != v})
+    if diff:
+        raise AnalysisError("alias front-end self-probe failed (got, expected): " +
+                            "; ".join(f"{k}: {a} != {b}" for k, (a, b) in sorted(diff.items()))[:900])
+    return sum(len(v) for v in PROBE_EXPECT.values())
+
+
 def run(res, tier):
+    probe_sites = self_probe()
     prog = pyalias.Program(FILES, exempt_receivers=EXEMPT_RECEIVERS)
     results = prog.analyse_all()
     quals = {f.qual for f, _ in results}
@@ -412,36 +622,56 @@ def run(res, tier):
         raise AnalysisError(f"anchor functions vanished: {sorted(missing)}")
     if prog.find_class(SERIES_CLASS) is None:
         raise AnalysisError("class TimeSeries not found in timeseries.py")
-    if len(results) < FLOOR_FUNCTIONS:
-        raise AnalysisError(f"only {len(results)} functions analysed, below the confirmed floor {FLOOR_FUNCTIONS}")
+    entries = [(f, s) for f, s in results if prog.is_entry_point(f)]
+    if len(entries) < FLOOR_ENTRY_POINTS:
+        raise AnalysisError(f"only {len(entries)} public entry points analysed, below the confirmed floor {FLOOR_ENTRY_POINTS}")
 
-    res.rule("R-PURITY", "no in-place operation reaches memory owned by a parameter (alias lattice fresh / "
-             "view-of(param.path); constructor calls propagate field aliases)", floor=FLOOR_SITES)
+    res.rule("R-PURITY", "no in-place operation reachable from a public entry point writes memory owned by one of its "
+             "parameters (alias lattice fresh / view-of(param.path); constructor calls propagate field aliases; private "
+             "helpers, generators and closures are followed); one obligation per (entry point, caller-owned parameter)",
+             floor=FLOOR_OWNED)
     res.rule("R-NEWOBJ", "a modifier annotated to return a TimeSeries returns a newly constructed object on every path",
              floor=FLOOR_NEWOBJ)
 
     res.trusted = ["CPython 3.11 ast parser", "numpy allocation/view semantics as tabulated in sa/pyalias.py"]
     res.count("files", len(FILES))
     res.count("functions", len(results))
+    res.count("entry_points", len(entries))
+    res.count("probe_sites", probe_sites)
     status_count = {}
     for f, s in results:
         for site in s.sites:
             status_count[site.status] = status_count.get(site.status, 0) + 1
-            construct = site.construct()
             if site.status == "view":
-                res.bad("R-PURITY", construct, site.file, site.line,
+                res.bad("R-PURITY", site.construct(), site.file, site.line,
                         f"{site.func}: {site.kind} on `{site.target}` writes memory owned by the caller "
                         f"(may alias parameter {', '.join(sorted(site.origins))})"
                         + (f" — {site.detail}" if site.detail else ""))
-            else:
-                res.ok("R-PURITY", construct,
-                       {"file": site.file, "line": site.line, "target": site.target, "class": site.status,
-                        "why": site.detail or {"fresh": "target is freshly allocated on every path",
-                                               "init": "initialisation of self",
-                                               "config": "registry receiver",
-                                               "deferred": "private helper: judged at its call sites"}[site.status]})
+    res.count("inplace_sites", sum(status_count.values()))
     for k, v in sorted(status_count.items()):
         res.count("sites_" + k, v)
+    # obligations
+    exempt_params = []
+    for f, s in entries:
+        reached = [g for g in prog.reach(f) if g is not f]
+        for p in s.owned:
+            construct = f"{f.qual}:param:{p}"
+            if p in s.exempt:
+                exempt_params.append(construct)
+                continue
+            hits = [x for x in s.sites if x.status == "view" and any(o.split(".")[0] == p for o in x.origins)]
+            if hits:
+                res.seen("R-PURITY", construct)               # reported per site above
+                continue
+            by_status = {}
+            for x in s.sites:
+                by_status[x.status] = by_status.get(x.status, 0) + 1
+            res.ok("R-PURITY", construct,
+                   {"file": f.mod.rel, "line": f.node.lineno, "inplace_sites_in_body": by_status,
+                    "helpers_followed": sorted(g.qual for g in reached if not prog.is_entry_point(g)),
+                    "why": "every in-place operation reached from this entry point has a target that is freshly "
+                           "allocated on every path (or is the initialisation / registry state of the receiver)"})
+    res.extra["exempt_receiver_parameters"] = exempt_params
 
     # R-NEWOBJ
     for f, s in results:
@@ -451,6 +681,8 @@ def run(res, tier):
             continue
         if not ((mod_is_modifiers and f.cls is None and _has_series_param(f)) or is_series_method):
             continue
+        if not prog.is_entry_point(f):
+            continue                      # a private helper's result is judged where a modifier returns it
         construct = f"{f.qual}:return"
         if s.ret is None:
             res.bad("R-NEWOBJ", construct, f.mod.rel, f.node.lineno, f"{f.qual} never returns a value")
@@ -469,11 +701,15 @@ def run(res, tier):
     res.explanation = (
         "Alias/mutation analysis (ast only) of every function and method of signal_modifier.py, "
         "signal_transform.py and timeseries.py. Abstract values: fresh, view-of(parameter.path), objects with "
-        "per-field values; TimeSeries(...) propagates its arguments into its fields because the dataclass stores "
-        "them un-copied (derived from the class body: " + repr(alias) + "). Every in-place site is classified; a "
-        "site whose target may be a view of a parameter is a violation. Joins take the union (view wins), loops "
-        "run to a fixpoint, private helpers are judged at their call sites. R-NEWOBJ: the modifiers return a "
-        "newly constructed TimeSeries on every path.")
+        "per-field values, tuples with per-position values; TimeSeries(...) propagates its arguments into its fields "
+        "because the dataclass stores them un-copied (derived from the class body: " + repr(alias) + "). A generator "
+        "function is a function that returns a fresh iterable whose elements alias what it yields; comprehensions are "
+        "loops. Every in-place site is classified; a site whose target may be a view of a parameter is a violation. "
+        "Joins take the union (view wins), loops run to a fixpoint, private helpers are judged at their call sites with "
+        "the actual arguments. Obligations are counted per (public entry point, caller-owned parameter) so that the "
+        "count depends on the interface, not on how the bodies are split into helpers or loops. R-NEWOBJ: the modifiers "
+        "return a newly constructed TimeSeries on every path. A fixed in-memory probe module checks on every run that "
+        "the analysis still classifies each mutation kind and aliasing construct as tabulated.")
     res.not_decided = ("interpolation values (range of neighbouring samples), equality of grouped and column-wise "
                        "resampling beyond the R-FALSY-NUMERIC clause, identity resampling; truthiness of values whose "
                        "type cannot be derived from annotations (computed numbers, unannotated attributes such as "
@@ -485,4 +721,147 @@ def run(res, tier):
         "put_along_axis, random.shuffle, ufunc.at, out=) do not write their array arguments",
         "values annotated np.ndarray (TimeSeries.times/.data) are numeric arrays, not object arrays",
         "`self` of SignalTransform is a registry, not a series passed in",
+        "generators follow the plain producer protocol (no send(), no return value): anything else is refused",
     ]
+
+
+# ------------------------------------------------------------------------------------------------
+# self-test (thorough tier): scratch-copy mutants.  Must-fire mutants are the defects each rule exists for; controls are
+# behaviour-preserving shapes (small versions of the stored refactors E-p8 / E-p9) that must leave the result unchanged.
+
+SM = "python/mujoco/sysid/_src/signal_modifier.py"
+ST = "python/mujoco/sysid/_src/signal_transform.py"
+TS = "python/mujoco/sysid/_src/timeseries.py"
+
+_GAIN = "  data_out = ts.data.copy()\n  data_out[..., indices] *= gain.value\n"
+_BIAS = "  data_out = ts.data.copy()\n  data_out[..., indices] += bias.value\n"
+_GAINS_LOOP = ("    for pattern, param_name, target in self._gains:\n"
+               "      if target != target_label and target != \"both\":\n"
+               "        continue\n"
+               "      for name in sensor_names:\n"
+               "        if fnmatch(name, pattern):\n"
+               "          indices = ts.get_indices(name)[1]\n"
+               "          data[..., indices] *= params[param_name].value\n")
+_CHECK_2D = ("    if data.ndim != 2:\n"
+             "      raise ValueError(\n"
+             "          \"The 'data' array must be 2-dimensional (Time x Features).\"\n"
+             "      )\n")
+_RESAMPLE_OLD = '''    # Generate new times if target_dt is provided.
+    if new_times is None:
+      if target_dt is None:
+        raise ValueError("Either new_times or target_dt must be provided")
+      if target_dt <= 0:
+        raise ValueError("target_dt must be a positive float")
+
+      # Create evenly spaced timestamps.
+      new_nsteps = (
+          int(np.ceil((self.times[-1] - self.times[0]) / target_dt)) + 1
+      )
+      new_times = np.linspace(
+          self.times[0], self.times[-1], new_nsteps, endpoint=True
+      )
+    else:
+      # Make sure new_times is valid.
+      if new_times.ndim != 1:
+        raise ValueError("new_times must be a 1D array")
+      if not np.all(np.diff(new_times) > 0):
+        raise ValueError("new_times must be strictly increasing")
+'''
+_RESAMPLE_NEW = '''    if new_times is not None:
+      if new_times.ndim != 1:
+        raise ValueError("new_times must be a 1D array")
+      if not np.all(np.diff(new_times) > 0):
+        raise ValueError("new_times must be strictly increasing")
+    elif target_dt is None:
+      raise ValueError("Either new_times or target_dt must be provided")
+    elif target_dt <= 0:
+      raise ValueError("target_dt must be a positive float")
+    else:
+      t_first, t_last = self.times[0], self.times[-1]
+      new_nsteps = int(np.ceil((t_last - t_first) / target_dt)) + 1
+      new_times = np.linspace(t_first, t_last, new_nsteps, endpoint=True)
+'''
+
+MUTANTS = [
+    # ---- R-PURITY: an in-place operation reaches the caller's array
+    {"id": "gain-inplace-on-view", "expect": ("R-PURITY", "apply_gain:augmented-subscript-store"),
+     "edits": [(SM, _GAIN, "  data_out = ts.data[...]\n  data_out[..., indices] *= gain.value\n")]},
+    {"id": "bias-copy-removed", "expect": ("R-PURITY", "apply_bias:augmented-subscript-store"),
+     "edits": [(SM, _BIAS, "  data_out = np.asarray(ts.data)\n  data_out[..., indices] += bias.value\n")]},
+    {"id": "delay-copy-removed", "expect": ("R-PURITY", "apply_delay:subscript-store"),
+     "edits": [(SM, "      ts.times, ts.data.copy(), ts.signal_mapping\n  )\n  ts_delayed.data[:, indices]",
+                "      ts.times, ts.data, ts.signal_mapping\n  )\n  ts_delayed.data[:, indices]")]},
+    {"id": "helper-no-copy-judged-at-call", "expect": ("R-PURITY", "SignalTransform.apply:call->SignalTransform._apply_gains_biases"),
+     "edits": [(ST, "    data = ts.data.copy()\n\n    for pattern, param_name, target in self._gains:",
+                "    data = ts.data\n\n    for pattern, param_name, target in self._gains:")]},
+    {"id": "generator-yields-views", "expect": ("R-PURITY", "apply_gain:augmented-assignment"),
+     "edits": [(SM, _GAIN, "  data_out = ts.data.copy()\n  for column in _sensor_columns(ts, indices):\n    column *= gain.value\n"),
+               (SM, "def apply_bias(\n", "def _sensor_columns(ts, indices):\n  for i in indices:\n    yield ts.data[..., i : i + 1]\n\n\ndef apply_bias(\n")]},
+    {"id": "closure-writes-caller", "expect": ("R-PURITY", "apply_delay._write:subscript-store"),
+     "edits": [(SM, "  ts_delayed.data[:, indices] = ts_sensor_delayed.data\n",
+                "  def _write(values):\n    ts.data[:, indices] = values\n\n  _write(ts_sensor_delayed.data)\n")]},
+    {"id": "tuple-helper-returns-view", "expect": ("R-PURITY", "apply_bias:augmented-subscript-store"),
+     "edits": [(SM, "  indices = ts.get_indices(sensor_name)[1]\n" + _BIAS,
+                "  indices, data_out = _columns_and_data(ts, sensor_name)\n  data_out[..., indices] += bias.value\n"),
+               (SM, "def apply_bias(\n", "def _columns_and_data(ts, sensor_name):\n  return ts.get_indices(sensor_name)[1], ts.data\n\n\ndef apply_bias(\n")]},
+    # ---- R-NEWOBJ: the input object is handed back
+    {"id": "window-returns-input", "expect": ("R-NEWOBJ", "apply_time_window:return"),
+     "edits": [(SM, "  return timeseries.TimeSeries(\n      ts.times[min_i:max_i],",
+                "  if min_i == 0 and max_i == len(ts.times):\n    return ts\n  return timeseries.TimeSeries(\n      ts.times[min_i:max_i],")]},
+    {"id": "remove-nothing-returns-self", "expect": ("R-NEWOBJ", "TimeSeries.remove_from_beginning:return"),
+     "edits": [(TS, "    idx = np.searchsorted(self.times, time_to_remove_s)\n",
+                "    idx = np.searchsorted(self.times, time_to_remove_s)\n    if idx == 0:\n      return self\n")]},
+    # ---- R-FALSY-NUMERIC: zero read as absent
+    {"id": "or-default-on-delay", "expect": ("R-FALSY-NUMERIC", "_build_per_column_delays:or:default_delay"),
+     "edits": [(SM, "  delays = [default_delay] * ts.data.shape[1]\n", "  delays = [default_delay or 0.0] * ts.data.shape[1]\n")]},
+    {"id": "override-or-default", "expect": ("R-FALSY-NUMERIC", "_build_per_column_delays:or:delay"),
+     "edits": [(SM, "      delays[i] = delay\n", "      delays[i] = delay or default_delay\n")]},
+    {"id": "not-target-dt", "expect": ("R-FALSY-NUMERIC", "TimeSeries.resample:not:target_dt"),
+     "edits": [(TS, "      if target_dt is None:\n", "      if not target_dt:\n")]},
+    {"id": "or-default-in-closure", "expect": ("R-FALSY-NUMERIC", "_build_per_column_delays.pick:or:delay"),
+     "edits": [(SM, "  for name, delay in sensor_delays.items():\n    sensor_indices = ts.get_indices(name)[1]\n    for i in sensor_indices:\n      delays[i] = delay\n",
+                "  def pick(delay: float) -> float:\n    return delay or default_delay\n\n"
+                "  for name, delay in sensor_delays.items():\n    sensor_indices = ts.get_indices(name)[1]\n    for i in sensor_indices:\n      delays[i] = pick(delay)\n")]},
+    # ---- controls: behaviour-preserving shapes
+    {"id": "control-tuple-helper-with-copy", "expect": None,
+     "edits": [(SM, "  indices = ts.get_indices(sensor_name)[1]\n" + _BIAS,
+                "  indices, data_out = _columns_and_data(ts, sensor_name)\n  data_out[..., indices] += bias.value\n"),
+               (SM, "def apply_bias(\n", "def _columns_and_data(ts, sensor_name):\n  indices = ts.get_indices(sensor_name)[1]\n  return indices, ts.data.copy()\n\n\ndef apply_bias(\n")]},
+    {"id": "control-generator-matches", "expect": None,
+     "edits": [(ST, _GAINS_LOOP,
+                "    for name, param_name in self._matches(self._gains, target_label, sensor_names):\n"
+                "      indices = ts.get_indices(name)[1]\n"
+                "      data[..., indices] *= params[param_name].value\n"),
+               (ST, "  _VERIFY_GAINS_BIASES = False\n",
+                "  @staticmethod\n  def _matches(entries, target_label, sensor_names):\n"
+                "    for pattern, param_name, target in entries:\n"
+                "      if target not in (target_label, \"both\"):\n        continue\n"
+                "      for name in sensor_names:\n        if fnmatch(name, pattern):\n          yield name, param_name\n\n"
+                "  _VERIFY_GAINS_BIASES = False\n")]},
+    {"id": "control-loop-to-comprehension", "expect": None,
+     "edits": [(TS, "      new_indices = []\n      for original_index in original_indices:\n"
+                    "        new_indices.append(original_to_new_index_map[original_index])\n",
+                "      new_indices = [original_to_new_index_map[i] for i in original_indices]\n")]},
+    {"id": "control-shared-check-helper", "expect": None,
+     "edits": [(TS, _CHECK_2D, "    _check_2d(data)\n", 3),
+               (TS, "@dataclass(frozen=True)\nclass TimeSeries", "def _check_2d(data: np.ndarray) -> None:\n  if data.ndim != 2:\n"
+                    "    raise ValueError(\n        \"The 'data' array must be 2-dimensional (Time x Features).\"\n    )\n\n\n"
+                    "@dataclass(frozen=True)\nclass TimeSeries")]},
+    {"id": "control-resample-elif-chain", "expect": None, "edits": [(TS, _RESAMPLE_OLD, _RESAMPLE_NEW)]},
+    {"id": "control-closure-on-copy", "expect": None,
+     "edits": [(SM, "  ts_delayed.data[:, indices] = ts_sensor_delayed.data\n",
+                "  def _write(values):\n    ts_delayed.data[:, indices] = values\n\n  _write(ts_sensor_delayed.data)\n")]},
+]
+
+
+def selftest(res):
+    from .. import r_misc
+    r_misc.run_mutants("C48", res, MUTANTS, parts=("python/mujoco",))
+
+
+if __name__ == "__main__":          # enumeration behind the floors: entry points, their caller-owned parameters and settings
+    _prog = pyalias.Program(FILES, exempt_receivers=EXEMPT_RECEIVERS)
+    for _f, _s in _prog.analyse_all():
+        if _prog.is_entry_point(_f):
+            print(_f.qual, "owned:", [p for p in _s.owned if p not in _s.exempt], "exempt:", sorted(_s.exempt),
+                  "settings:", [p for p, a in _f.ann.items() if has_numeric(ann_type(a))])
